@@ -49,6 +49,8 @@ ASSUMPTIONS = [
     'routes: a geometry whose atmosphere type, block order or convention was changed by plain property assignment '
     '(or that was written and read back) is valid as the library left it - the harness makes no refreshing call after '
     'the assignment; convention is re-assigned only 0 -> 3 (the only pair with compatible column and layer names)',
+    'announced order of the underground blocks is also compared with the documented orderings (layer then column; '
+    'dmplex: four-sided columns first, then three-sided, each by layer then column)',
     'reference trusted: ref/geo_c04.py']
 
 XS = [1.25, 2.5, 0.75]
@@ -68,12 +70,12 @@ MIX = {
     'cols': [([0, 1, 4, 3], None), ([1, 2, 5, 4], (4.6, 1.4)), ([6, 4, 3], None), ([4, 5, 8, 7, 6], None),
              ([6, 7, 9], None), ([7, 8, 10], None)],
     'cons': [(0, 1), (2, 0), (1, 3), (3, 2), (3, 4), (5, 3)],
-    'top': 12.5, 'bottoms': [10.25, 7.0, 2.75]}
+    'top': 12.5, 'bottoms': [10.3, 7.0, 2.8]}
 TQ = {
     'nodes': [(0.0, 0.0), (2.2, 0.0), (4.05, 0.3), (0.0, 1.9), (2.0, 2.1), (4.3, 2.4), (1.1, 4.0)],
     'cols': [([0, 1, 4, 3], None), ([1, 2, 5, 4], None), ([3, 4, 6], None), ([4, 5, 6], None)],
     'cons': [(0, 1), (0, 2), (3, 1), (2, 3)],
-    'top': 5.0, 'bottoms': [4.0, 2.5, 0.25, -2.0]}
+    'top': 5.0, 'bottoms': [4.0, 2.5, 0.3, -2.1]}
 
 
 # ---------------------------------------------------------------------------------------------------------
@@ -532,6 +534,18 @@ def eval_case(ctx, atm, order, angle, bmkind, sidx, stats=None, route='direct'):
             'announced %d underground blocks, raw data give %d: %s'
             % (len(announced_b) - natm, len(ref_ug),
                sorted(set(announced_b[natm:]) ^ set(ref_ug))[:6]))
+    else:
+        # documented orderings (mulformat.rst header record, block_name_list_dmplex): layer then column; or
+        # blocks of four-sided columns first, then those of three-sided columns, each by layer then column
+        if order == 'dmplex':
+            nn = [len(c['nodes']) for c in raw.cols]
+            want_order = [b['name'] for b in blocks if nn[b['col']] == 4] + \
+                         [b['name'] for b in blocks if nn[b['col']] == 3]
+        else:
+            want_order = ref_ug
+        if announced_b[natm:] != want_order:
+            add('announced-block-order-differs-from-documented', 'order=%s|%s%s' % (order, ac, rc_),
+                'block order %r: %s' % (order, first_diff(announced_b[natm:], want_order)))
     atm0 = announced_b[0] if (atm == 0 and announced_b) else None
     if atm == 1:
         ref_atm = [R.compose_name(raw.convention, st.lname[0], c) for c in st.colnames]
